@@ -1,18 +1,19 @@
 --------------------------- MODULE DatasetStoreGen ----------------------------
 (* Generator for C64: explores DatasetStore exhaustively and emits every maximal history (a scripted prefix     *)
-(* followed by MaxSteps free calls, or ended by a call that must fail) together with the expected contents of   *)
-(* every dataset and file at its end.  In -simulate mode it emits random deep histories.                        *)
+(* followed by m free calls, or ended by a call that must fail) together with the expected contents of every    *)
+(* dataset and file at its end.  In -simulate mode it emits random deep histories.                              *)
 EXTENDS DatasetStore, Json
-CONSTANT Scripts          \* set of sequences of event records (the parameters of Do); <<>> = start from nothing
+CONSTANT Scripts          \* set of [s |-> sequence of event records (the parameters of Do; <<>> = start from nothing),
+                          \*         m |-> number of free calls after the prefix]            (MaxSteps of the base module: >= every m)
 VARIABLES hist, script
 gvars == <<vars, hist, script>>
 GInit == Init /\ hist = <<>> /\ script \in Scripts
-GNext == /\ IF Len(hist) < Len(script)
-            THEN ev.err = "" /\ Do(script[Len(hist) + 1]) /\ n' = 0
-            ELSE Next
+GNext == /\ IF Len(hist) < Len(script.s)
+            THEN ev.err = "" /\ Do(script.s[Len(hist) + 1]) /\ n' = 0
+            ELSE n < script.m /\ Next
          /\ hist' = Append(hist, ev') /\ UNCHANGED script
 Snapshot == [ds |-> [d \in D |-> [st |-> ds[d].st, c |-> IF IsOpen(d) THEN View(d) ELSE Empty]], files |-> files]
-Emit == IF Len(hist) >= Len(script) /\ (n = MaxSteps \/ ev.err # "")
-        THEN PrintT(ToJson([hist |-> hist, pre |-> Len(script), exp |-> Snapshot]))
+Emit == IF Len(hist) >= Len(script.s) /\ (n = script.m \/ ev.err # "")
+        THEN PrintT(ToJson([hist |-> hist, pre |-> Len(script.s), free |-> script.m, exp |-> Snapshot]))
         ELSE TRUE
 =============================================================================
